@@ -189,7 +189,10 @@ func (e *Engine) doIf(s *State, f *Frame, x *ssa.If, budget *int, depth int) *St
 	}
 	s.Forks++
 	// unwinding counter: symbolic decisions taken at this block in this frame
-	f.Visits[f.Block.Index]++
+	ji := e.joinOf(x.Block())
+	if !ji.ok {
+		f.Visits[f.Block.Index]++
+	}
 	if f.Visits[f.Block.Index] > s.Unwind {
 		s.Status = fmt.Sprintf("unwind: bound %d exceeded at %s in %s", s.Unwind, e.instrPos(s, x), f.Fn.String())
 		return s
@@ -202,7 +205,6 @@ func (e *Engine) doIf(s *State, f *Frame, x *ssa.If, budget *int, depth int) *St
 	e.jump(o, of, fb)
 	s.PC = append(s.PC, c)
 	e.jump(s, f, tb)
-	ji := e.joinOf(x.Block())
 	if !e.MergeOn || !ji.ok || depth >= 8 {
 		e.Pending = append(e.Pending, o, s)
 		return nil
